@@ -289,6 +289,9 @@ def _run(case, ctx, sim):
 
 # ------------------------------------------------------------------ strategies
 def s_general(gran, pvs, **kw):
+    # orphan-threshold replacement is C13's business; with it disabled an explicit close() cannot make borrowers
+    # busy-wait on a closed connection (see _simpool.s_history)
+    kw.setdefault("thrs", (100,))
     return SP.s_case(st, "c10", gran, pvs, max_events=24, **kw)
 
 
@@ -343,7 +346,7 @@ def s_paging(gran="blocking"):
     )
     ev = st.tuples(st.integers(1, 4), st.lists(mid, min_size=1, max_size=10), fail, st.lists(mid, max_size=4)).map(
         lambda t: [["send", 3]] * t[0] + [list(e) for e in t[1]] + [list(t[2])] + [list(e) for e in t[3]])
-    return SP.s_case(st, "c10", gran, [DSE_V1], mifs=(4, 5, 8), thrs=(2, 100),
+    return SP.s_case(st, "c10", gran, [DSE_V1], mifs=(4, 5, 8), thrs=(100,),
                      extra={"events": ev, "paging": st.just(True), "versions": st.just([3, 4, DSE_V1]),
                             "decisions": st.just([])})
 
